@@ -85,6 +85,17 @@ def base_pool():
 
 NON_JSON = [set(), b'x', object(), [set()], {'a': b'x'}, {(1, 2): 1}, 1j, {frozenset(): 1}, [1, [2, [object()]]],
             bytearray(b'x'), range(3), {'a': {'b': {1, 2}}}, (1, {2}), Ellipsis, {b'k': 1}]
+# look-alikes of the JSON container / scalar types that json.dumps rejects: mappings that are not dicts, sequences
+# that are not lists or tuples, numbers that are neither int nor float; also empty (falsy) ones and nested positions
+import array as _array        # noqa: E402
+import decimal as _decimal    # noqa: E402
+import fractions as _fractions    # noqa: E402
+import types as _types        # noqa: E402
+NON_JSON += [_types.MappingProxyType({'a': 1}), collections.UserDict({'a': 1}), collections.ChainMap({'a': 1}),
+             collections.UserList([1]), collections.UserString('a'), collections.deque([1]), _array.array('i', [1]),
+             frozenset(), memoryview(b'x'), _decimal.Decimal(1), _fractions.Fraction(1, 2), b'', collections.UserDict(),
+             _types.MappingProxyType({}), [_types.MappingProxyType({'a': 1})], {'a': collections.UserDict({'b': 1})},
+             (collections.ChainMap({'a': 1}),), {'k': [collections.UserList()]}, iter([1]), (x for x in [1]), len, int]
 
 
 def random_values(seed, n):
